@@ -13,7 +13,6 @@ import (
 
 	"github.com/lindb/lindb/config"
 	"github.com/lindb/lindb/models"
-	"github.com/lindb/lindb/pkg/compress"
 	"github.com/lindb/lindb/pkg/queue"
 	"github.com/lindb/lindb/replica"
 	"github.com/lindb/lindb/rpc"
@@ -63,7 +62,6 @@ type driver struct {
 	curInj    []*injState
 	curFlush  *flushRec
 	real      *realTracker
-	rejectN   atomic.Int64
 	resMu     sync.Mutex
 	cursor    map[partKey]int64
 	payloads  map[partKey]map[string]int
@@ -619,7 +617,7 @@ func (d *driver) runActions(acts []action) {
 		a := &acts[i]
 		switch a.Kind {
 		case "append":
-			d.appendRows(a.Rows, a.Writers, a.Split, a.Reject)
+			d.appendRows(a.Rows, a.Writers, a.Split)
 		case "replicate":
 			for _, key := range d.L.Parts {
 				ps := d.parts[key]
@@ -632,7 +630,7 @@ func (d *driver) runActions(acts []action) {
 }
 
 // appendRows builds the entries of the rows and appends them with WriteLog from `writers` concurrent callers.
-func (d *driver) appendRows(rows []rowRec, writers int, split bool, reject ...string) []int {
+func (d *driver) appendRows(rows []rowRec, writers int, split bool) []int {
 	var built []builtEntry
 	if split {
 		for i := range rows {
@@ -651,14 +649,6 @@ func (d *driver) appendRows(rows []rowRec, writers int, split bool, reject ...st
 		}
 		built = b
 	}
-	// entries the local replicator cannot apply, appended right behind the valid entries of the same partition
-	for _, kind := range reject {
-		if kind == "" || len(built) == 0 {
-			continue
-		}
-		built = append(built, builtEntry{part: built[0].part, payload: d.rejectPayload(kind), reject: kind})
-		writers = 1 // keep the order: valid entries first
-	}
 	if writers < 1 {
 		writers = 1
 	}
@@ -672,10 +662,7 @@ func (d *driver) appendRows(rows []rowRec, writers int, split bool, reject ...st
 	ids := make([]int, len(built))
 	d.mu.Lock()
 	for i, b := range built {
-		e := entryRec{ID: len(d.L.Entries), Part: b.part, Seq: -1, Rows: b.rows, First: -1, Last: -1, Writers: writers, Reject: b.reject, Garbage: b.reject != ""}
-		if b.reject != "" {
-			d.L.Counters["rejected_entries_appended."+b.reject]++
-		}
+		e := entryRec{ID: len(d.L.Entries), Part: b.part, Seq: -1, Rows: b.rows, First: -1, Last: -1, Writers: writers}
 		ids[i] = e.ID
 		d.L.Entries = append(d.L.Entries, e)
 		if d.payloads == nil {
@@ -719,23 +706,6 @@ func (d *driver) appendRows(rows []rowRec, writers int, split bool, reject ...st
 		d.count("append_actions_with_concurrent_writers", 1)
 	}
 	return ids
-}
-
-// rejectPayload builds a log entry the local replicator cannot apply (unique bytes per entry).
-//
-//	corrupt  not a snappy stream: Uncompress fails, the replicator calls IgnoreMessage
-//	garbage  a valid snappy stream of bytes that are not flat rows: UnmarshalRows panics (recovered by partition.replica)
-func (d *driver) rejectPayload(kind string) []byte {
-	n := d.rejectN.Add(1)
-	switch kind {
-	case "garbage":
-		w := compress.NewSnappyWriter()
-		_, _ = w.Write([]byte{0xde, 0xad, 0xbe, 0xef, 1, 2, 3, 4, 5, 6, 7, 8, 9, 10, 11, 12, 13, 14, 15, 16, byte(n), byte(n >> 8)})
-		_ = w.Close()
-		return w.Bytes()
-	default:
-		return []byte{1, 2, 3, byte(n), byte(n >> 8), 0xff}
-	}
 }
 
 // resolveSeqs reads the messages the log of a partition received since the last call and finds the entries they are.
